@@ -15,6 +15,7 @@ package sctp
 import (
 	"encoding/binary"
 	"fmt"
+	"math/rand"
 	"os"
 	"strings"
 	"testing"
@@ -248,6 +249,174 @@ func init() {
 				w.snapAll = true
 				w.quiesce()
 				w.tr.emit(map[string]any{"ev": "expect", "drained": true, "t": w.now()})
+				w.finish(true)
+			})
+		}
+	}
+}
+
+// ---------------------------------------------------------------------------------------------
+// rebundle: the peer's packets arrive bundled differently from how pion/sctp packetises them. Whenever two or more
+// packets of one sender are in the network the driver may merge their chunks, in order, into ONE packet (same
+// verification tag, total <= the sender's MTU, INIT / INIT-ACK / SHUTDOWN-COMPLETE never bundled, COOKIE-ECHO only as
+// first chunk) and hand that over instead. Content and order of the chunks are exactly what the peer sent, so every
+// monitor stays in force: [COOKIE-ECHO, DATA], [SACK, DATA], [RE-CONFIG, DATA], [DATA, RE-CONFIG, SACK], [SHUTDOWN, SACK]
+// ... none of which pion ever emits.
+func (w *vfWorld) rebundle(r func(int) int, mtu int) bool {
+	pend := w.pending(-1)
+	if len(pend) < 2 {
+		return false
+	}
+	first := pend[0]
+	group := []*vfPkt{first}
+	size := len(first.raw)
+	solo := func(raw []byte, pos int) bool {
+		d := vfDecodePacket(raw)
+		for i, c := range d.Chunks {
+			switch c.Typ {
+			case 1, 2, 14: // INIT, INIT-ACK, SHUTDOWN-COMPLETE
+				return true
+			case 10: // COOKIE-ECHO: first chunk of the packet only
+				if pos > 0 || i > 0 {
+					return true
+				}
+			}
+		}
+		return len(d.Chunks) == 0
+	}
+	if solo(first.raw, 0) {
+		return false
+	}
+	for _, p := range pend[1:] {
+		if p.from != first.from || solo(p.raw, 1) || size+len(p.raw)-12 > mtu || string(p.raw[4:8]) != string(first.raw[4:8]) {
+			break
+		}
+		group = append(group, p)
+		size += len(p.raw) - 12
+		if r(3) == 0 {
+			break
+		}
+	}
+	if len(group) < 2 {
+		return false
+	}
+	merged := make([]byte, 12, size)
+	copy(merged, first.raw[:12])
+	for _, p := range group {
+		merged = append(merged, p.raw[12:]...)
+	}
+	merged = vfWithCk(merged, "ok")
+	if binary.LittleEndian.Uint32(first.raw[8:12]) == 0 { // zero checksum in use: keep it
+		merged = vfWithCk(merged, "zero")
+	}
+	for _, p := range group {
+		w.drop(p.id)
+	}
+	w.inject(1-first.from, merged, "rebundled", true)
+	return true
+}
+
+func init() {
+	vfModes["rebundle"] = func(t *testing.T) {
+		shard, nshards := vfEnvInt("VF_SHARD", 0), vfEnvInt("VF_NSHARDS", 1)
+		seed := int64(vfEnvInt("VF_SEED", 1))
+		n := vfEnvInt("VF_N", 24)
+		tr, err := vfNewTrace(vfOut(fmt.Sprintf("rebundle-%d.ndjson", shard)))
+		if err != nil {
+			t.Fatal(err)
+		}
+		defer tr.close()
+		for k := 0; k < n; k++ {
+			if k%nshards != shard {
+				continue
+			}
+			k := k
+			il, zc := k%2 == 1, k%4 >= 2
+			label := fmt.Sprintf("rebundle-il%v-zc%v#%d-%d", il, zc, seed, k)
+			rnd := rand.New(rand.NewSource(seed*1009 + int64(k)))
+			vfBubble(t, label, func() {
+				w := vfNewWorld(vfWorldOpt{Label: label, Trace: tr, A: vfEpCfg{InitTSN: uint32(1000 * k), Tag: 0xA5, IL: il, ZC: zc},
+					B: vfEpCfg{InitTSN: uint32(0) - uint32(3*k), Tag: 0xB5, IL: il, ZC: zc, Server: true}})
+				w.cfgEvent()
+				w.start(1)
+				w.start(0)
+				w.quiesce()
+				mtu := int(initialMTU)
+				step := func() bool {
+					if len(w.pending(-1)) == 0 {
+						return false
+					}
+					if rnd.Intn(3) > 0 && w.rebundle(rnd.Intn, mtu) {
+						return true
+					}
+					w.deliver(w.pending(-1)[0].id)
+					return true
+				}
+				pumpAll := func() {
+					for i := 0; i < 400 && step(); i++ {
+						w.accept(0)
+						w.accept(1)
+						w.drainReads()
+					}
+				}
+				// handshake: the client writes as soon as its connect call has returned, so that DATA waits next to the
+				// handshake packets
+				for i := 0; i < 40; i++ {
+					w.mu.Lock()
+					est := w.ep[0].connRet && w.ep[1].connRet
+					w.mu.Unlock()
+					if est {
+						break
+					}
+					if a := w.ep[0].a; a != nil && a.getState() == cookieEchoed && w.stream(0, 1) == nil {
+						// data written while the COOKIE-ECHO is still under way is queued and sent behind it
+						if s, err := a.OpenStream(1, PayloadTypeWebRTCBinary); err == nil {
+							w.ep[0].streams[1] = s
+							w.ep[0].inc[1]++
+							w.tr.emit(map[string]any{"ev": "api", "ep": 0, "op": "open", "sid": 1, "ok": true, "err": "nil", "t": w.now()})
+						}
+					}
+					if !step() {
+						w.tick(2 * time.Second)
+					}
+				}
+				if w.stream(0, 1) == nil {
+					w.open(0, 1, 51)
+				}
+				w.open(0, 2, 51)
+				w.open(1, 3, 51)
+				for round := 0; round < 4; round++ {
+					w.write(0, 1, 40+rnd.Intn(300), 51)
+					w.write(0, 2, 20+rnd.Intn(100), 51)
+					w.write(1, 3, 30+rnd.Intn(200), 53)
+					if round == 1 {
+						w.write(0, 1, 2500, 51)
+					}
+					if rnd.Intn(2) == 0 {
+						w.sleep(210 * time.Millisecond) // delayed SACKs become due and wait next to DATA
+					}
+					pumpAll()
+				}
+				// a stream is closed right behind its last message: RE-CONFIG waits next to DATA
+				w.write(0, 2, 60, 51)
+				w.closeStream(0, 2)
+				w.write(1, 3, 70, 53)
+				pumpAll()
+				w.sleep(300 * time.Millisecond)
+				pumpAll()
+				w.heal(30 * time.Second)
+				// graceful shutdown with data still queued: SHUTDOWN / SACK / DATA next to each other
+				w.write(0, 1, 90, 51)
+				w.write(1, 3, 95, 53)
+				a := w.ep[0].a
+				w.apiAsync(0, "shutdown", func() error { return a.Shutdown(contextBG()) })
+				pumpAll()
+				w.sleep(300 * time.Millisecond)
+				pumpAll()
+				w.heal(30 * time.Second)
+				w.snapAll = true
+				w.quiesce()
+				w.tr.emit(map[string]any{"ev": "shutend", "who": 0, "t": w.now()})
 				w.finish(true)
 			})
 		}
